@@ -3,6 +3,7 @@ package main
 import (
 	"encoding/json"
 	"fmt"
+	"go/types"
 	"os"
 	"path/filepath"
 	"sort"
@@ -36,15 +37,16 @@ func (o Obligation) Key() string { return o.Property + "|" + o.Rule + "|" + o.Co
 // Ctx carries the program, the resolved roles and the obligations collected
 // while evaluating one property.
 type Ctx struct {
-	P        *Prog
-	R        *Roles
-	Property string
-	Obls     []Obligation
-	ruleDoc  map[string]string
-	ruleN    map[string]int
-	stats    map[string]int
-	wsCache  *WS
-	optional map[string]bool
+	P            *Prog
+	R            *Roles
+	Property     string
+	Obls         []Obligation
+	ruleDoc      map[string]string
+	ruleN        map[string]int
+	stats        map[string]int
+	wsCache      *WS
+	optional     map[string]bool
+	closedFields map[*types.Var]bool
 }
 
 func newCtx(p *Prog, r *Roles, property string) *Ctx {
@@ -71,9 +73,13 @@ func (c *Ctx) add(rule string, st Status, construct, pos, detail string) {
 	c.Obls = append(c.Obls, Obligation{Property: c.Property, Rule: rule, Construct: construct, Pos: pos, Status: st, Detail: detail})
 }
 
-func (c *Ctx) ok(rule, construct, pos, detail string)  { c.add(rule, Discharged, construct, pos, detail) }
+func (c *Ctx) ok(rule, construct, pos, detail string) {
+	c.add(rule, Discharged, construct, pos, detail)
+}
 func (c *Ctx) bad(rule, construct, pos, detail string) { c.add(rule, Violated, construct, pos, detail) }
-func (c *Ctx) und(rule, construct, pos, detail string) { c.add(rule, Undecided, construct, pos, detail) }
+func (c *Ctx) und(rule, construct, pos, detail string) {
+	c.add(rule, Undecided, construct, pos, detail)
+}
 
 // check: convenience — discharged if cond else violated.
 func (c *Ctx) check(cond bool, rule, construct, pos, okDetail, badDetail string) bool {
